@@ -34,8 +34,9 @@ const (
 // If the buffer isn't a valid STUN or ChannelData packet,
 // or the length doesn't match return false.
 func consumeSingleTURNFrame(b []byte) (int, error) {
-	// Too short to determine if ChannelData or STUN
-	if len(b) < 9 {
+	// Too short to determine if ChannelData or STUN. A ChannelData frame with an empty
+	// payload is only 4 bytes long, so nothing more than its header may be required.
+	if len(b) < channelDataHeaderSize {
 		return 0, errIncompleteTURNFrame
 	}
 
